@@ -36,7 +36,8 @@ class Check(PropertyCheck):
     ]
 
     def rule(self):
-        return ("pairs and triples of random grids / bundled blocks placed side by side or stacked with gaps 1..3; "
+        return ("pairs of random grids / bundled blocks / shapes with attachments placed side by side, stacked, or stacked so that "
+                "the lower part starts one column after the end of the upper part's last row, gaps 1..3; "
                 "oracle: elements of svg(A+B) = elements of svg(A) + elements of svg(B) shifted to its place (multiset), "
                 "canvas covers both; non-trivial = both parts non-empty, distinct by combined input")
 
@@ -44,6 +45,7 @@ class Check(PropertyCheck):
         out = []
         blocks = [clean(b) for b in gen.bundled_blocks()]
         blocks = [b for b in blocks if b]
+        self._blocks = blocks
         for _ in range(n):
             if self.rng.chance(1, 4) and blocks:
                 out.append(self.rng.choice(blocks))
@@ -63,18 +65,34 @@ class Check(PropertyCheck):
         for i in range(0, len(ps) - 1, 2):
             a, b = ps[i], ps[i + 1]
             gap = self.rng.range(1, 3)
-            mode = self.rng.choice(["side", "stack"])
+            mode = self.rng.choice(["side", "stack", "stack", "aligned"])
+            if mode == "aligned":
+                # the lower part starts one column after the column where the upper part's last row ends (reading
+                # order continues across the gap); the lower part is a drawing with arcs more often than not
+                if self.rng.chance(2, 3):
+                    b = clean(self.rng.choice(self._blocks)) if (self._blocks and self.rng.chance(2, 3)) else clean(gen.attached_shape(self.rng))
+                if self.rng.chance(1, 2):
+                    a = self.rng.choice(["a", "+", "ab", "+--+\n|  |\n+--+", "-", "*"])
+                if not b:
+                    mode = "stack"
             out.append((a, b, gap, mode))
         return out
 
     @staticmethod
     def combine(a, b, gap, mode):
-        """returns (combined text, (dx, dy) of b in cells)"""
+        """returns (combined text, (ax, dx, dy)): column offset of a, offset of b in cells"""
         la = a.split("\n")
         if mode == "side":
             wa = max(gen.dispw(l) for l in la)
-            return gen.side_by_side(a, b, gap), (wa + gap, 0)
-        return a + "\n" * (gap + 1) + b, (0, len(la) + gap)
+            return gen.side_by_side(a, b, gap), (0, wa + gap, 0)
+        if mode == "aligned":
+            x = gen.dispw(la[-1]) - 1
+            first = b.split("\n")[0]
+            c = len(first) - len(first.lstrip(" "))
+            d = x + 1 - c
+            ax, bx = (0, d) if d >= 0 else (-d, 0)
+            return gen.place(a, ax, 0) + "\n" * (gap + 1) + gen.place(b, bx, 0), (ax, bx, len(la) + gap)
+        return a + "\n" * (gap + 1) + b, (0, 0, len(la) + gap)
 
     def correspondence(self):
         dis = []
@@ -106,7 +124,7 @@ class Check(PropertyCheck):
         res = common.run_impl("lib", lines)
         for i, (a, b, gap, mode) in enumerate(combos):
             self.evaluations += 1
-            t, (dx, dy) = meta[i]
+            t, (ax, dx, dy) = meta[i]
             case = {"input": t, "input_hex": hx(t), "a": a, "b": b, "gap": gap, "mode": mode}
             rs = [res["%d%s" % (i, s)] for s in "abc"]
             if not all(r.startswith("ok ") for r in rs):
@@ -117,7 +135,7 @@ class Check(PropertyCheck):
             except svgcanon.ParseError:
                 continue
             ident = lambda v: v
-            ca = relational.canon_elems(A, ident, ident, ident, with_group=True)
+            ca = relational.canon_elems(A, lambda v: v + 8 * ax, ident, ident, with_group=True)
             cb = relational.canon_elems(B, lambda v: v + 8 * dx, lambda v: v + 16 * dy, ident, with_group=True)
             cc = relational.canon_elems(C, ident, ident, ident, with_group=True)
             if ca and cb:
@@ -129,7 +147,7 @@ class Check(PropertyCheck):
                 fails.append(Failure("rendering of the juxtaposition is not the union of the parts", case,
                                      relational.describe_diff(both, cc)))
                 continue
-            w = max(F(A.attrs["width"]), F(B.attrs["width"]) + 8 * dx) if cb else F(A.attrs["width"])
+            w = max(F(A.attrs["width"]) + 8 * ax, F(B.attrs["width"]) + 8 * dx) if cb else F(A.attrs["width"]) + 8 * ax
             h = max(F(A.attrs["height"]), F(B.attrs["height"]) + 16 * dy) if cb else F(A.attrs["height"])
             if ca and cb and (F(C.attrs["width"]), F(C.attrs["height"])) != (w, h):
                 fails.append(Failure("canvas does not cover both parts exactly", case,
